@@ -361,7 +361,7 @@ pub fn gen_request(g: &mut G, max_body: usize) -> ReqPlan {
             continue;
         }
         if name == "Content-Type" {
-            let v = (*g.pick(&["application/json", "text/x-custom; charset=latin1", "application/x-whatever", "multipart/form-data; boundary=callers-own"])).as_bytes().to_vec();
+            let v = (*g.pick(&["application/json", "text/x-custom; charset=latin1", "application/x-whatever", "multipart/form-data; boundary=callers-own", "multipart/form-data; Boundary=callers-own", "MULTIPART/FORM-DATA; BOUNDARY=\"callers-own\"", "multipart/mixed; boundary=callers-own"])).as_bytes().to_vec();
             headers.push((name, v, false));
             continue;
         }
